@@ -48,6 +48,36 @@ def side_of(arg, binds):
     return None
 
 
+def risky_ors(body):
+    """`||` nodes that can open an alternative route to TRUE: every Or except those in the condition of an `if` whose then-branch only returns
+    false (`if a != b || n != m { return false; }` is a conjunction written as a guard)."""
+    ors = [x for x in hir.walk(body) if x["e"] == "binary" and x["op"] == "Or"]
+    benign = set()
+    for x in hir.walk(body):
+        if x["e"] == "if" and x.get("c") is not None and x.get("t") is not None:
+            rets = [r for r in hir.walk(x["t"]) if r["e"] == "ret"]
+            only_false = bool(rets) and all(r.get("x") is not None and r["x"]["e"] == "lit" and r["x"].get("text") == "Bool(false)" for r in rets)
+            others = [y for y in hir.walk(x["t"]) if y["e"] in ("call", "mcall", "assign", "inlined")]
+            if only_false and not others:
+                for y in hir.walk(x["c"]):
+                    if y["e"] == "binary" and y["op"] == "Or":
+                        benign.add(id(y))
+    return [o for o in ors if id(o) not in benign]
+
+
+def arm_range(m, arm, fn):
+    """source line range of a match arm: from its own line to the line before the next arm (or a generous bound after the last one)."""
+    lns = sorted(a["ln"] for a in m["arms"])
+    nxt = [x for x in lns if x > arm["ln"]]
+    return arm["ln"], (nxt[0] - 1) if nxt else arm["ln"] + 400
+
+
+def sem_quant(F, m, arm, fn, env=None):
+    from qvlib import polarity
+    lo, hi = arm_range(m, arm, fn)
+    return polarity.semantic_quantifiers(F, REL, REL, lo, hi, env)
+
+
 def r1_polarity(ctx):
     R = "R-C09-1"
     ctx.rule(R, "polarity table of check_type_relation: union-on-left is ALL under UnionMode::All and ANY under UnionMode::Any; union-on-right is ANY "
@@ -63,18 +93,18 @@ def r1_polarity(ctx):
         ctx.violated(R, "arm(Union,_)", "no unguarded arm for a union on the left")
     else:
         a = left[0]
-        inner = [x for x in hir.matches(a["body"]) if "UnionMode" in (x.get("sty") or "")]
-        ok = False
-        detail = {}
-        isrec = lambda c: (hir._callee_key(c) or c.get("key")) == REL
-        if inner:
-            for arm2 in inner[0]["arms"]:
-                mode = arm2["pat"].get("variant")
-                detail[mode] = hir.quantifiers(arm2["body"], isrec)
-            ok = detail.get("All") == ["all"] and detail.get("Any") == ["any"]
-        if not inner or any("unknown" in v or not v for v in detail.values()):
-            raise CheckError("%s: the union-on-left arm of check_type_relation no longer has a per-mode quantifier shape that can be classified "
-                             "syntactically (%s): cannot decide its polarity" % (R, detail or hir.quantifiers(a["body"], isrec)))
+        # decided on MIR (qvlib/polarity.py): with the mode's discriminant fixed, what does ONE variant's result do to the loop / adaptor around
+        # the recursive call? Works for Iterator::all/any, early-return loops, flag+break loops and `settles`-style rewrites alike.
+        rb = F.body(REL)
+        mode_l = [l["i"] for l in rb.params() if "UnionMode" in l["ty"]]
+        if not mode_l:
+            raise CheckError("%s: the UnionMode parameter of check_type_relation was not found" % R)
+        modes = F.variants("quiver_core::types::UnionMode")
+        detail = {mv: sem_quant(F, m, a, fn, {("d", mode_l[0]): i}) for i, mv in enumerate(modes)}
+        if any("unknown" in v or not v for v in detail.values()):
+            raise CheckError("%s: the union-on-left arm of check_type_relation has a quantifier structure that cannot be classified (%s): cannot decide "
+                             "its polarity" % (R, detail))
+        ok = detail.get("All") == ["all"] and detail.get("Any") == ["any"]
         ctx.check(ok, R, "arm(Union,_)|mode", "All -> Iterator::all, Any -> Iterator::any over the variants", "union-on-left polarity is %s (expected All->all, Any->any)" % detail,
                   "%s:%d" % (file, a["ln"]))
     # union on the right
@@ -84,10 +114,10 @@ def r1_polarity(ctx):
         ctx.violated(R, "arm(_,Union)", "no arm for a union on the right")
     else:
         a = right[0]
-        meths = hir.quantifiers(a["body"], lambda c: (hir._callee_key(c) or c.get("key")) == REL)
+        meths = sem_quant(F, m, a, fn)
         if "unknown" in meths or not meths:
             raise CheckError("%s: the union-on-right arm of check_type_relation has a quantifier shape that cannot be classified (%s)" % (R, meths))
-        ors = [x for x in hir.walk(a["body"]) if x["e"] == "binary" and x["op"] == "Or"]
+        ors = risky_ors(a["body"])
         helpers = sorted({k for k in hir.call_keys(a["body"]) if k.startswith("quiver_") and k != REL})
         modes = [x for x in hir.matches(a["body"]) if "UnionMode" in (x.get("sty") or "")] + [x for x in hir.walk(a["body"]) if x["e"] == "path" and x.get("name") == "mode" and False]
         ok = meths == ["any"] and not ors and not helpers and not modes
@@ -102,12 +132,12 @@ def r1_polarity(ctx):
             ctx.violated(R, "arm(%s,%s)" % (va, vb), "no structural arm")
             continue
         a = arms[0]
-        meths = hir.quantifiers(a["body"], lambda c: (hir._callee_key(c) or c.get("key")) == REL)
+        meths = sem_quant(F, m, a, fn)
         if "unknown" in meths or not meths:
             raise CheckError("%s: the (%s,%s) arm of check_type_relation has a quantifier shape that cannot be classified (%s)" % (R, va, vb, meths))
         # outermost quantifier over the PATTERN's fields must be `all`
         ok = bool(meths) and meths[0] == "all" and sorted(set(meths)) == sorted(set(want)) and bool(rec_calls(a["body"]))
-        ors = [x for x in hir.walk(a["body"]) if x["e"] == "binary" and x["op"] == "Or"]
+        ors = risky_ors(a["body"])
         ctx.check(ok and not ors, R, "arm(%s,%s)|conjunctive" % (va, vb), "every required field must relate (outer Iterator::all), recursion on the field types",
                   "(%s,%s) combines field results with %s (disjunctions: %d)" % (va, vb, meths, len(ors)), "%s:%d" % (file, a["ln"]))
     # callable variance
@@ -130,7 +160,7 @@ def r1_polarity(ctx):
                 seen[field_of[n0[0]]] = (binds[n0[0]], binds[n1[0]])
         want = {"parameter": (1, 0), "result": (0, 1), "receive": (1, 0)}
         ands = [x for x in hir.walk(a["body"]) if x["e"] == "binary" and x["op"] == "And"]
-        ors = [x for x in hir.walk(a["body"]) if x["e"] == "binary" and x["op"] == "Or"]
+        ors = risky_ors(a["body"])
         ctx.check(seen == want and len(ands) >= 2 and not ors, R, "arm(Callable,Callable)|variance",
                   "parameter and receive contravariant (pattern, self), result covariant (self, pattern), all three conjoined",
                   "callable variance is %s (expected %s), conjunctions=%d disjunctions=%d" % (seen, want, len(ands), len(ors)), "%s:%d" % (file, a["ln"]))
@@ -139,7 +169,7 @@ def r1_polarity(ctx):
     if arms:
         a = arms[0]
         ands = [x for x in hir.walk(a["body"]) if x["e"] == "binary" and x["op"] == "And"]
-        ors = [x for x in hir.walk(a["body"]) if x["e"] == "binary" and x["op"] == "Or"]
+        ors = risky_ors(a["body"])
         ctx.check(len(rec_calls(a["body"])) == 2 and len(ands) >= 1 and not ors, R, "arm(Process,Process)|conjunctive", "send and receive must both relate",
                   "process arm: %d recursive calls, %d conjunctions, %d disjunctions" % (len(rec_calls(a["body"])), len(ands), len(ors)), "%s:%d" % (file, a["ln"]))
     else:
